@@ -68,8 +68,14 @@ ALIASES = [("al3", "pv3"), ("al1", "pv1"), ("al5", "pv5"), ("alg", "pvg")]
 
 
 def fl(lo, hi):
-    return st.floats(min_value=lo, max_value=hi, allow_nan=False, allow_infinity=False,
-                     allow_subnormal=False).map(fhex)
+    """A parameter in [lo, hi]: mostly from a coarse grid of quarters, so that values recur between
+    the prefix history and the probe and stand in simple relations to each other (s and s + 1, s and
+    2 s, ...) - that is where a cache keyed on the wrong quantity shows - otherwise any float."""
+    grid = [k / 4.0 for k in range(1, 41) if lo <= k / 4.0 <= hi]
+    anyf = st.floats(min_value=lo, max_value=hi, allow_nan=False, allow_infinity=False, allow_subnormal=False)
+    if not grid:
+        return anyf.map(fhex)
+    return st.one_of(st.sampled_from(grid), st.sampled_from(grid), anyf).map(fhex)
 
 
 def _ordered3():
@@ -109,13 +115,13 @@ def _args(name):
     if name == "hyperexponential":
         return st.sampled_from(PAIRS).map(list)
     if name == "std_gamma":
-        return T(fl(1.0, 50)).map(list)
+        return T(fl(0.05, 50)).map(list)
     if name in ("gamma", "weibull"):
         return T(fl(0.1, 50), fl(0.01, 10)).map(list)
     if name == "std_beta":
-        return T(fl(1.0, 20), fl(1.0, 20)).map(list)
+        return T(fl(0.05, 20), fl(0.05, 20)).map(list)
     if name == "beta":
-        return T(fl(1.0, 20), fl(1.0, 20), _range2()).map(lambda t: [t[0], t[1]] + t[2])
+        return T(fl(0.05, 20), fl(0.05, 20), _range2()).map(lambda t: [t[0], t[1]] + t[2])
     if name == "pareto":
         return T(fl(0.5, 20), fl(0.01, 10)).map(list)
     if name == "chisquared":
